@@ -2344,9 +2344,10 @@ where
         let before = inp.save().clone();
         match self.parser_a.go::<M>(inp) {
             Ok(out) => {
-                // A succeeded -- go back to the beginning and try B
+                // A succeeded -- go back to the beginning and try B. A's output is kept, so the errors it
+                // emitted must be kept too: only the input position is reset.
                 let after = inp.save();
-                inp.rewind(before);
+                inp.rewind_input(before.clone());
 
                 match self.parser_b.go::<Check>(inp) {
                     Ok(()) => {
@@ -2356,6 +2357,7 @@ where
                     }
                     Err(()) => {
                         // B failed -- go back to the beginning and fail
+                        inp.rewind(before);
                         Err(())
                     }
                 }
@@ -2663,7 +2665,8 @@ where
         let before = inp.save();
         match self.parser.go::<M>(inp) {
             Ok(out) => {
-                inp.rewind(before);
+                // The output is kept, so are the errors emitted while producing it
+                inp.rewind_input(before);
                 Ok(out)
             }
             Err(()) => Err(()),
